@@ -45,7 +45,7 @@ def check(ctx, src):
     v = sc.func("ResolveOuterVars.visit_OuterVar")
     ctx.require(v is not None, "visit_OuterVar not found")
     loop = next((n for n in pyq.walk_no_nested(v) if isinstance(n, ast.While)), None)
-    ctx.require(loop is not None, "visit_OuterVar: scope walk not found")
+    ctx.need(loop is not None, "visit_OuterVar: scope walk not found")
     ctx.check(norm(loop.test) == "undefined and scope.parent" and norm(loop.body[0]) == "scope = scope.parent", "OUTERVAR-RESOLVE", f"{SC}|visit_OuterVar|walk", "the walk must go outwards from the declaring scope while names remain", SC, loop.lineno, detail="while undefined and scope.parent: scope = scope.parent")
     arms = {norm(a.test): a for a in ast.walk(loop) if isinstance(a, ast.If) and norm(a.test).startswith("isinstance(scope, Scope")}
     ctx.check(set(arms) == {"isinstance(scope, ScopeFn)", "isinstance(scope, ScopeLet)", "isinstance(scope, ScopeGlobal)"}, "OUTERVAR-RESOLVE", f"{SC}|visit_OuterVar|scope kinds", f"scope kinds handled: {sorted(arms)}", SC, loop.lineno, detail="Fn, Let, Global")
